@@ -227,3 +227,11 @@ package certs
 //@   property C10
 //@   pure
 //@   requires name.Type == certs.TypeDNSName || name.Type == certs.TypeIPv4Address || name.Type == certs.TypeIPv6Address || name.Type == certs.TypeRaw
+// A self-signed certificate carries the requested type, the identity's key, the zero parent link (what VerifyParent
+// requires of a root) and is issued at the instant the clock was read.
+//@ func selfSign(self *Identity, certificateType CertificateType, keyPair *keys.SigningKeyPair) (out *Certificate, err error)
+//@   property C04
+//@   assume only the clauses below are proved against the body (the signing tail is not modelled, as for issue)
+//@   requires self != nil
+//@   proves err == nil ==> out != nil && out.Type == certificateType && out.Parent == zero && out.PublicKey == self.PublicKey && out.Version == certs.Version
+//@   proves err == nil ==> same(out.IssuedAt, resultof(time.Now, t))
